@@ -205,6 +205,17 @@ CHECKS = {
              "headings incl. the poles) are swept over lattice parameters and judged by TLC.",
         design="DESIGN.md §5 C08",
         note=TRUST + "; std atan2 names the first-person azimuths"),
+    "C10": dict(
+        technique="TLA+ typing relation Types over a finite universe of tagged types and operations (one- and two-step "
+                  "programs, result-annotated ones); TLC checks inhabitedness of every misuse class, twins and renaming "
+                  "invariance and exports every program; the compiler's verdict on each rendered program is validated by TLC",
+        text="TLC enumerates every program of the universe (about 1200), checks that each misuse class of the statement is "
+             "inhabited, that every rejected program has a well-typed twin and that verdicts are invariant under renaming "
+             "of bases; each program is rendered to a Rust function and type-checked by rustc against the real crate - the "
+             "accepted module must compile cleanly, every rejected function must own a type error - and TLC compares the "
+             "observed verdict table with the relation.",
+        design="DESIGN.md §5 C10",
+        note="TLC 1.8 + CommunityModules; rustc's diagnostics attributed by line span; rendering templates in py/c10.py"),
 }
 
 NOT_YET = "check not built yet in this round (see DESIGN.md §9 for the order of work)"
